@@ -13,7 +13,7 @@
       (validate stage: `validateTracks_routed`).
   Side conditions (`OptDomain`, decidable): the ones of `C01_optimize_terminates_partial`.
 -/
-import Ctrmml.Proofs.PipelineStages
+import Ctrmml.Proofs.PipelineValidate
 import Ctrmml.Proofs.OptOOB
 import Ctrmml.Properties.C01
 namespace Ctrmml.Pipeline
